@@ -2151,6 +2151,16 @@ class SInterp:
             return out
         if name == "str" and len(e.args) == 1:
             return [((v if isinstance(v, (AStr, str)) or v is UNKNOWN else self.to_astr(v)), s) for v, s in self.eval(e.args[0], st)]
+        if name == "map" and len(e.args) == 2 and isinstance(e.args[0], ast.Name) and e.args[0].id == "str":
+            out = []
+            for it, s in self.eval(e.args[1], st):
+                if isinstance(it, ASeq):
+                    out.append((ASeq(it.elem if isinstance(it.elem, (AStr, str)) else self.to_astr(it.elem), it.lo, it.hi), s))
+                elif isinstance(it, (tuple, list)):
+                    out.append((tuple(x if isinstance(x, (AStr, str)) else self.to_astr(x) for x in it), s))
+                else:
+                    out.append((UNKNOWN, s))
+            return out
         if name == "range":
             out = []
             for vals, s in self.evals(list(e.args), st):
@@ -2176,7 +2186,7 @@ class SInterp:
 
 class ARegex(AObj):
     def __init__(self, pattern: str):
-        super().__init__("regex")
+        super().__init__("@regex")
         self.pattern = pattern
 
     def key(self) -> tuple:
